@@ -249,6 +249,9 @@ func checkLog(prop string, evs []sev, T time.Duration, finalDrain bool, viol fun
 	dropped := map[key]bool{} // requests dropped by a disconnect / stop (no conclusion owed at the ocppj layer)
 	lastWrote := map[string]string{}
 	popped := map[key]bool{}
+	// client endpoints: the link as the endpoint was told last (a delayed disconnect notification can arrive after the
+	// notification of the reconnection: the endpoint then rightly stays paused and retains its queue)
+	linkDown := map[string]bool{}
 	dump := func(c string) []string {
 		var r []string
 		for _, e := range evs {
@@ -289,6 +292,10 @@ func checkLog(prop string, evs []sev, T time.Duration, finalDrain bool, viol fun
 					viol("C08", "timeout-early", fmt.Sprintf("%s: request %s for %q reported as timed out %v after it was written (timeout %v)", prop, e.id, e.client, e.t.Sub(w[len(w)-1]), T), dump(e.client))
 				}
 			}
+		case "disconnect-event":
+			linkDown[e.client] = true
+		case "connect":
+			linkDown[e.client] = false
 		case "disconnect", "stop":
 			for kk := range accepted {
 				if (kk.c == e.client || e.kind == "stop") && len(concl[kk]) == 0 {
@@ -339,7 +346,7 @@ func checkLog(prop string, evs []sev, T time.Duration, finalDrain bool, viol fun
 	}
 	if finalDrain {
 		for k := range accepted {
-			if len(concl[k]) == 0 && !dropped[k] {
+			if len(concl[k]) == 0 && !dropped[k] && !linkDown[k.c] {
 				viol("C01", "never-concluded", fmt.Sprintf("%s: request %s for %q was accepted but never concluded although every CALL was answered or left to time out and the endpoint went idle", prop, k.id, k.c), dump(k.c))
 			}
 		}
